@@ -69,7 +69,7 @@ example : checkProofs exUnsat [(4, [3, 1]), (5, [2, 4, 0])] = false := by decide
 /-- `solve_cnf` answering `'unsatisfiable'`: no assignment satisfies the input. -/
 theorem unsat_sound {fuel : Nat} {cnf : CNF} {o : Oracle} {c' : CNF} {ps : List (Nat × List Nat)}
     (h : solveCnf fuel cnf o = .unsat c' ps) : ¬ ∃ σ, Sat σ cnf :=
-  ((solveCnf_spec fuel cnf o).2 c' ps h).1
+  ((solveCnf_spec fuel cnf o).2.1 c' ps h).1
 
 example : ¬ ∃ σ, Sat σ exUnsat := unsat_sound exUnsat_run
 
@@ -81,7 +81,7 @@ learned clause is empty. -/
 theorem trace_valid {fuel : Nat} {cnf : CNF} {o : Oracle} {c' : CNF} {ps : List (Nat × List Nat)}
     (h : solveCnf fuel cnf o = .unsat c' ps) :
     checkTrace c' cnf.length ps = true ∧ c'.take cnf.length = cnf.map dedup :=
-  ⟨((solveCnf_spec fuel cnf o).2 c' ps h).2.1, ((solveCnf_spec fuel cnf o).2 c' ps h).2.2.1⟩
+  ⟨((solveCnf_spec fuel cnf o).2.1 c' ps h).2.1, ((solveCnf_spec fuel cnf o).2.1 c' ps h).2.2.1⟩
 
 example : checkTrace (exUnsat ++ [[(0, false)], []]) 4 [(4, [3, 1]), (5, [2, 4, 0, 4])] = true :=
   (trace_valid exUnsat_run).1
@@ -91,7 +91,7 @@ learned clauses can be recomputed by replaying the proofs in order, whatever ord
 sets had, and the proofs pass the checker against the recomputed list. -/
 theorem proofs_valid {fuel : Nat} {cnf : CNF} {o : Oracle} {c' : CNF} {ps : List (Nat × List Nat)}
     (h : solveCnf fuel cnf o = .unsat c' ps) : checkProofs cnf ps = true :=
-  ((solveCnf_spec fuel cnf o).2 c' ps h).2.2.2
+  ((solveCnf_spec fuel cnf o).2.1 c' ps h).2.2.2
 
 example : checkProofs exUnsat [(4, [3, 1]), (5, [2, 4, 0, 4])] = true := proofs_valid exUnsat_run
 
@@ -103,6 +103,17 @@ theorem verdict_correct {fuel : Nat} {cnf : CNF} {o : Oracle} :
 
 example : (∃ σ, Sat σ exSat) ∧ ¬ ∃ σ, Sat σ exUnsat :=
   ⟨verdict_correct.1 _ exSat_run, verdict_correct.2 _ _ exUnsat_run⟩
+
+/-- `solve_cnf` never raises: the `assert` in `analyze_conflict`, the clause lookups and the
+`clause[-2]` / `assigns[name]` indexing in `backtrack` cannot fail, for any CNF and any set order.
+(The only other outcome of the model is running out of the fuel that stands in for `while True`;
+termination itself is not proved.) -/
+theorem no_crash {fuel : Nat} {cnf : CNF} {o : Oracle} {e : Err}
+    (h : solveCnf fuel cnf o = .error e) : e = .outOfFuel :=
+  (solveCnf_spec fuel cnf o).2.2 e h
+
+example : solveCnf 1 exUnsat ⟨[0,1],[]⟩ = .error .outOfFuel := by rfl
+example : solveCnf 100 exUnsat ⟨[0,1],[]⟩ ≠ .error .assertion := fun h => by cases no_crash h
 
 /-! ### Tseitin rules, regenerated from `library/sat.json` on every run (Gen.lean) -/
 
